@@ -9,17 +9,17 @@ export GOFLAGS=-mod=mod GOPROXY=off GOSUMDB=off GOTOOLCHAIN=local
 git -C /repo worktree remove --force $wt >/dev/null 2>&1
 git -C /repo worktree add --detach $wt HEAD >/dev/null 2>&1 || { echo "{\"error\":\"worktree\"}"; exit 1; }
 cd $wt
-demo=$(ls $src/zz_seed_*_test.go | head -1)
+demo=$(ls $src/zz_seed*_test.go 2>/dev/null | head -1); [ -n "$demo" ] || { echo "{\"seed\":\"$prop/$x\",\"error\":\"no demo test\"}"; git -C /repo worktree remove --force $wt >/dev/null 2>&1; exit 1; }
 pkg=$(grep -l "" $src/patch.diff >/dev/null; grep '^+++ b/' $src/patch.diff | head -1 | sed 's#^+++ b/##; s#/[^/]*$##')
 # the demo's package: from the notes or by the package clause
 dpkgname=$(grep -m1 '^package ' $demo | awk '{print $2}')
 dpkg=$(for d in $(grep '^+++ b/' $src/patch.diff | sed 's#^+++ b/##; s#/[^/]*$##' | sort -u) pkg/bondmachine pkg/procbuilder pkg/basm pkg/bmnumbers pkg/simbox pkg/bmqsim; do if [ -d $d ] && grep -q "^package $dpkgname\$" $d/*.go 2>/dev/null; then echo $d; break; fi; done)
-tname=$(grep -o 'func Test[A-Za-z0-9_]*' $demo | head -1 | sed 's/func //')
+tname=$(grep -o 'func Test[A-Za-z0-9_]*' $demo | sed 's/func //' | tr '\n' '|' | sed 's/|$//')
 cp $demo $dpkg/
-before=$(go test -vet=off -count=1 -timeout 300s -run "^$tname\$" ./$dpkg 2>&1 | tail -3 | tr '\n' ' ')
+before=$(go test -vet=off -count=1 -timeout 300s -run "^($tname)\$" ./$dpkg 2>&1 | tail -3 | tr '\n' ' ')
 applies=yes
 git apply $src/patch.diff 2>/dev/null || applies=no
-after=$(go test -vet=off -count=1 -timeout 300s -run "^$tname\$" ./$dpkg 2>&1 | tail -3 | tr '\n' ' ')
+after=$(go test -vet=off -count=1 -timeout 300s -run "^($tname)\$" ./$dpkg 2>&1 | tail -3 | tr '\n' ' ')
 rm -f $dpkg/$(basename $demo)
 pkgs=$(grep '^+++ b/' $src/patch.diff | sed 's#^+++ b/##; s#/[^/]*$##' | sort -u | sed 's#^#./#' | tr '\n' ' ')
 suite=$(go test -vet=off -count=1 -timeout 600s $pkgs ./pkg/procbuilder ./pkg/bondmachine ./pkg/simbox 2>&1 | grep -v "^ok\|no test files" | grep -v "TestNumberToBinary" | tail -4 | tr '\n' ' ')
